@@ -6,7 +6,7 @@ From Coq Require Import ZArith Reals.
 From Flocq Require Import Core BinarySingleNaN.
 Require Import MPSV.Dpe.DpeDefs MPSV.Dpe.DpeModel MPSV.Dpe.DpeProps.
 Require Import MPSV.Dpe.DpeArith MPSV.Dpe.DpePow MPSV.Dpe.DpeCplx MPSV.Dpe.DpeSat.
-Require Import MPSV.Dpe.DpeModel2 MPSV.Dpe.DpeScal MPSV.Dpe.DpeCplx2 MPSV.Dpe.DpeCpowDefs MPSV.Dpe.DpeCpow.
+Require Import MPSV.Dpe.DpeModel2 MPSV.Dpe.DpeScal MPSV.Dpe.DpeCplx2 MPSV.Dpe.DpeCpowDefs MPSV.Dpe.DpeCpow MPSV.Dpe.DpeAsIs.
 Open Scope Z_scope.
 
 (* rdpe_Norm returns a normalised value denoting exactly the same real (exponent sum in range) *)
@@ -754,3 +754,24 @@ Proof.
   split. split; apply normalised_half.
   vm_compute. repeat split; try reflexivity; intro; discriminate.
 Qed.
+
+(* ---- the *_d variants AS THEY ARE in mt.c today (DpeModel.rdpe_mul_d / rdpe_div_d, also what C04 and C08 model):
+   one ulp under the explicit hypothesis that the double operation mantissa * d (mantissa / d) lands in the normal range
+   [2^-1022, 2^1023] (or is exactly zero); C12_d_variants_unfixed_refuted shows the hypothesis cannot be dropped ------------- *)
+Theorem C12_mul_d_asis_rel : forall x d, normalised x -> is_finite d = true ->
+  LONG_MIN + 1100 <= esp x <= LONG_MAX - 1100 ->
+  ((B2R (mnt x) * B2R d = 0)%R \/ (bpow radix2 (-1022) <= Rabs (B2R (mnt x) * B2R d) <= bpow radix2 1023)%R) ->
+  normalised (rdpe_mul_d x d) /\ rel_e u53 (rval (rdpe_mul_d x d)) (rval x * B2R d).
+Proof. exact mul_d_asis_rel. Qed.
+Print Assumptions C12_mul_d_asis_rel.
+Theorem C12_div_d_asis_rel : forall x d, normalised x -> is_finite d = true -> B2R d <> 0%R ->
+  LONG_MIN + 1100 <= esp x <= LONG_MAX - 1100 ->
+  ((B2R (mnt x) = 0)%R \/ (bpow radix2 (-1022) <= Rabs (B2R (mnt x) / B2R d) <= bpow radix2 1023)%R) ->
+  normalised (rdpe_div_d x d) /\ rel_e u53 (rval (rdpe_div_d x d)) (rval x / B2R d).
+Proof. exact div_d_asis_rel. Qed.
+Print Assumptions C12_div_d_asis_rel.
+Example C12_d_asis_nonvacuous :     (* 3 * 2 = 6 and 3 / 2 = 1.5 through the code as it is: same bits as the repaired code *)
+  let three := Rdpe fthreeq 2 in
+  same_rdpe (rdpe_mul_d three ftwo) (Rdpe fthreeq 3) /\ same_rdpe (rdpe_div_d three ftwo) (Rdpe fthreeq 1) /\
+  same_rdpe (rdpe_mul_d three ftwo) (rdpe_mul_d_fix three ftwo).
+Proof. vm_compute. repeat split; reflexivity. Qed.
